@@ -491,13 +491,35 @@ Proof.
 Qed.
 
 (* ------------------------------------------------------------------ write path *)
-Lemma e2e_write_roundtrip : forall exp_c imp_n exp_n imp_c v r,
-  (forall x, exists j, exp_c x = Some j /\ imp_n j = Some x) ->
-  (forall x, exists j, exp_n x = Some j /\ imp_c j = Some x) ->
+(* pointwise: only the value passed and the value returned have to round-trip.  (An earlier version asked for the
+   round trip of EVERY value id, "forall x, exists j, exp_c x = Some j /\ imp_n j = Some x"; no finite conversion table
+   of Run.check_case satisfies that, see NonVacuity.v, so the statement said nothing about the cases of the harness.) *)
+Lemma e2e_write_driver_iff : forall exp_c imp_n exp_n imp_c v r,
+  fst (e2e_write exp_c imp_n exp_n imp_c v r) = Some v <-> (exists j, exp_c v = Some j /\ imp_n j = Some v).
+Proof.
+  intros. unfold e2e_write. simpl. split.
+  - destruct (exp_c v) as [j|] eqn:E; [|discriminate]. intro H. exists j. auto.
+  - intros [j [-> H]]. exact H.
+Qed.
+Lemma e2e_write_cache_iff : forall exp_c imp_n exp_n imp_c v r,
+  snd (e2e_write exp_c imp_n exp_n imp_c v r) = Some r <-> (exists j, exp_n r = Some j /\ imp_c j = Some r).
+Proof.
+  intros. unfold e2e_write. simpl. split.
+  - destruct (exp_n r) as [j|] eqn:E; [|discriminate]. intro H. exists j. auto.
+  - intros [j [-> H]]. exact H.
+Qed.
+Lemma e2e_write_pointwise : forall exp_c imp_n exp_n imp_c v r,
+  (exists j, exp_c v = Some j /\ imp_n j = Some v) -> (exists j, exp_n r = Some j /\ imp_c j = Some r) ->
   e2e_write exp_c imp_n exp_n imp_c v r = (Some v, Some r).
 Proof.
-  intros exp_c imp_n exp_n imp_c v r H1 H2. unfold e2e_write.
-  destruct (H1 v) as [j [-> ->]]. destruct (H2 r) as [j' [-> ->]]. reflexivity.
+  intros exp_c imp_n exp_n imp_c v r [j [H1 H2]] [j' [H3 H4]]. unfold e2e_write. rewrite H1, H2, H3, H4. reflexivity.
+Qed.
+Lemma e2e_read_iff : forall exp_n imp_c r,
+  e2e_read exp_n imp_c r = Some r <-> (exists j, exp_n r = Some j /\ imp_c j = Some r).
+Proof.
+  intros. unfold e2e_read. split.
+  - destruct (exp_n r) as [j|] eqn:E; [|discriminate]. intro H. exists j. auto.
+  - intros [j [-> H]]. exact H.
 Qed.
 
 Lemma combine_fst_le : forall {A B} (v : list A) (p : list B), length v <= length p -> map fst (combine v p) = v.
@@ -509,4 +531,41 @@ Lemma array_validate_exact : forall {A} (prev v : list A), array_validate prev v
 Proof.
   intros A prev v. unfold array_validate. destruct prev as [|y prev]; auto.
   apply combine_fst_le. rewrite app_length, map_length, repeat_length. lia.
+Qed.
+
+(* ------------------------------------------------------------------ struct written against the previous value *)
+Lemma struct_get_set : forall k k0 x0 l,
+  struct_get k (struct_set k0 x0 l) = if Nat.eqb k k0 then Some x0 else struct_get k l.
+Proof.
+  induction l as [|[k' v'] l IH]; simpl.
+  - reflexivity.
+  - destruct (Nat.eqb k0 k') eqn:E; simpl.
+    + apply Nat.eqb_eq in E. subst k'. destruct (Nat.eqb k k0); reflexivity.
+    + destruct (Nat.eqb k k') eqn:E2.
+      * apply Nat.eqb_eq in E2. subst k'. rewrite Nat.eqb_sym in E. rewrite E. reflexivity.
+      * exact IH.
+Qed.
+Lemma struct_validate_get : forall v prev k,
+  struct_get k (struct_validate prev v) =
+    match assoc_last Nat.eqb k v with Some x => Some x | None => struct_get k prev end.
+Proof.
+  unfold struct_validate. induction v as [|[k0 x0] v IH]; intros prev k; simpl.
+  - reflexivity.
+  - rewrite IH. destruct (assoc_last Nat.eqb k v); [reflexivity|].
+    rewrite struct_get_set. destruct (Nat.eqb k k0); reflexivity.
+Qed.
+Lemma struct_set_keys : forall k x l, In k (map fst l) -> map fst (struct_set k x l) = map fst l.
+Proof.
+  induction l as [|[k' v'] l IH]; simpl; intro H; [tauto|].
+  destruct (Nat.eqb k k') eqn:E; simpl.
+  - apply Nat.eqb_eq in E. subst. reflexivity.
+  - f_equal. apply IH. destruct H as [H|H]; [subst; rewrite Nat.eqb_refl in E; discriminate|exact H].
+Qed.
+(* a value that names only members the previous value has: same members afterwards, in the same order *)
+Lemma struct_validate_keys : forall v prev,
+  (forall kv, In kv v -> In (fst kv) (map fst prev)) -> map fst (struct_validate prev v) = map fst prev.
+Proof.
+  unfold struct_validate. induction v as [|[k0 x0] v IH]; intros prev H; simpl; [reflexivity|].
+  assert (E : map fst (struct_set k0 x0 prev) = map fst prev) by (apply struct_set_keys; apply (H (k0, x0)); left; reflexivity).
+  rewrite IH; [exact E|]. intros kv I. rewrite E. apply H. right. exact I.
 Qed.
